@@ -76,9 +76,28 @@ def guarded(fn, seconds=20):
 # --------------------------------------------------------------------------------------------------
 # encoders (the harness's own; diffed against Lean's Spec.encodeV2 / Spec.encodeV3)
 
-def enc_thread(tid, pid, name: bytes):
-    assert len(name) <= 20
-    return tid.to_bytes(8, 'little') + pid.to_bytes(4, 'little') + name + b'\x00' * (20 - len(name))
+def enc_thread(tid, pid, name: bytes, junk: bytes = b''):
+    """junk: bytes left in the 20-byte command field BEHIND the name's terminator (a reused kernel slot: the field is a C
+    string, whatever follows the first NUL is not part of the name)."""
+    assert len(name) <= 20 and (not junk or len(name) + 1 + len(junk) <= 20)
+    field = name + (b'\x00' + junk if junk else b'')
+    return tid.to_bytes(8, 'little') + pid.to_bytes(4, 'little') + field + b'\x00' * (20 - len(field))
+
+
+def add_junk(rng, threads):
+    """Thread entries [tid, pid, name hex] -> the same with a 4th element: bytes behind the terminator."""
+    out = []
+    for t in threads:
+        room = 19 - len(bytes.fromhex(t[2]))
+        if room > 0 and rng.random() < 0.7:
+            k = rng.randrange(1, room + 1)
+            style = rng.randrange(4)
+            junk = (rng.randbytes(k) if style == 0 else bytes(rng.choice(b'abcxyz/._') for _ in range(k)) if style == 1
+                    else (b'srv\x00' * 5)[:k] if style == 2 else b'\xff' * k)
+            out.append(list(t[:3]) + [junk.hex()])
+        else:
+            out.append(list(t[:3]))
+    return out
 
 
 def enc_v2(threads, pad, recs, is64=1, tick=24000000):
@@ -428,7 +447,7 @@ def gen_v3(rng, small=False, blocks=True):
 def v3_bytes(f):
     return enc_v3({'hdr': f['hdr'], 'cpu': bytes.fromhex(f['cpu']), 'four': bytes.fromhex(f['four']),
                    'filler': bytes.fromhex(f['filler']), 'gap1': bytes.fromhex(f['gap1']),
-                   'threads': [(t[0], t[1], bytes.fromhex(t[2])) for t in f['threads']],
+                   'threads': [(t[0], t[1], bytes.fromhex(t[2])) + ((bytes.fromhex(t[3]),) if len(t) > 3 else ()) for t in f['threads']],
                    'tmtrail': bytes.fromhex(f['tmtrail']),
                    'chunks': [(bytes.fromhex(c['gap']), c['extra'], [bytes.fromhex(r) for r in c['recs']]) for c in f['chunks']],
                    'unknown8': [bytes.fromhex(c['unk']) for c in f['chunks']],
